@@ -37,7 +37,8 @@ CLAIMED = {
               "RecursionError untouched; non-Exceptions never become Exceptions), args / exit code preserved, the first "
               "(expression, file, line, column) record of the message is an expression unit enclosing the failing call "
               "at its true position, followed by exactly the enclosing use-macro sites (text, file, line, column) innermost "
-              "first, no stale records, nothing returned."),
+              "first, no stale records, nothing returned. Also: a text that begins with U+FEFF, and a failure under up to "
+              "70 calls of a macro that uses itself (every call site must be listed)."),
         design_ref="DESIGN.md 3.2",
         note=("Trusted: the generator's site table (offsets recorded while serialising) and sim/model.py for the stack of "
               "enclosing use-macro sites. 35% of cases are multi-file sets (macro libraries reached through load:). "
@@ -117,7 +118,8 @@ CLAIMED = {
         text=("Seeded histories (4-26 operations) of a deployer (writes versions, stamps mtimes from a simulated "
               "clock incl. backward/same-tick/sub-second steps, deletes, restores) and a server (render, list macros, "
               "use a macro from another template, content type, loader.load with several name shapes, load: "
-              "expression) over 1-3 files in 1-3 search directories, with EIO/ENOENT injected at the server's "
+              "expression) over 1-3 files in 1-3 search directories (given absolute or relative to the process's directory, "
+              "a package-relative entry first or last; objects made from absolute, relative or ~ paths), with EIO/ENOENT injected at the server's "
               "stat/read seam. After every step the outcome must be one an independent instance of the expected "
               "version produces; compile counts must match the mtime rule; loader results are checked for identity "
               "and first-match resolution; after faults stop one tick and one use must give the latest version. "
